@@ -695,7 +695,10 @@ fn check_scenario_inner(sc: &Scenario, l: &mut Local) {
                     fail(l, "entry-after-failed-or-abandoned-download", format!("run ended {} yet the cache holds {:?}", res.label(), cf.iter().map(|f| (&f.0, f.1.len())).collect::<Vec<_>>()));
                 }
                 // a complete well-formed delivery of a parseable file must succeed (unless abandoned)
-                if cancel.is_none() {
+                if sc.fsize_limit.is_some() && matches!(sc.kind, Kind::File(_)) {
+                    // the product of an opaque download IS the cache file: with no room for it the lookup fails
+                    l.outcome("disk-quota: file lookup fails");
+                } else if cancel.is_none() {
                     if let Some(w) = winner {
                         let complete_valid = sc.kind != Kind::Symbols || scripts[w].delivered.as_ref().is_some_and(|b| b.last() == Some(&b'\n'));
                         if complete_valid {
@@ -749,6 +752,15 @@ fn quota_scenarios() -> Vec<Scenario> {
     for limit in limits {
         for framing in ["content-length", "chunked"] {
             v.push(Scenario { class: "disk-quota".into(), kind: Kind::Symbols, scripts: vec![script_full(framing, BODY)], cancel_after: None, preexisting: None, broken_dirs: 0, then: None, timeout_ms: 60_000, fsize_limit: Some(limit), dir_at_cache_path: false });
+        }
+    }
+    // opaque downloads: every limit from 0 to one past the file (a short write of the last piece must not be
+    // taken for a complete file), whole and in two pieces
+    for fk in [FileKind::Binary, FileKind::ExtraDebugInfo] {
+        for limit in 0..=BLOB.len() as u64 + 1 {
+            for script in [script_full("content-length", BLOB), script_full("chunked", BLOB), script_split(BLOB, &[BLOB.len() / 2], false)] {
+                v.push(Scenario { class: "disk-quota-file".into(), kind: Kind::File(fk), scripts: vec![script], cancel_after: None, preexisting: None, broken_dirs: 0, then: None, timeout_ms: 60_000, fsize_limit: Some(limit), dir_at_cache_path: false });
+            }
         }
     }
     v
